@@ -44,6 +44,7 @@ Inductive doc :=
 | DInt (z : Z)
 | DStr (s : str)
 | DTime (s : str)
+| DBytes (s : str)      (* a Cue bytes literal 'abc' (only Cue texts abstract to it): text for a TextUnmarshaler, ill-typed elsewhere *)
 | DList (l : list doc)
 | DMap (kvs : list (str * doc)).
 
@@ -128,11 +129,11 @@ Fixpoint keyed_decode (nt nd : bool) (key : str -> list (str * str) -> str) (d :
   | TTextU id true =>
       if str_eqb id time_name then decode_time nt d
       else                                   (* the palette's pointer-receiver TextUnmarshaler stores the text *)
-      match d with DStr s => Ok (VText s) | _ => Err 40 end
+      match d with DStr s | DBytes s => Ok (VText s) | _ => Err 40 end
   | TPtr t' => omap VPtr (keyed_decode nt nd key d t')
   | TSlice e n =>
       if netip e n then                      (* net.IP: a TextUnmarshaler whose kind is slice *)
-        match d with DStr s => parse_ip s | _ => Err 40 end
+        match d with DStr s | DBytes s => parse_ip s | _ => Err 40 end
       else
       match d with
       | DList l =>
